@@ -254,10 +254,41 @@ def c05(c):
         exhaustive=True)
 
 
+def _replay(c, path):
+    """bin/check <id> --replay FILE: behaviours via the generic replay; recorded traces are
+    regenerated from the stored seed + command and validated again."""
+    r = json.load(open(path))
+    if r.get("kind") != "trace":
+        return vf.generic_replay(c, path)
+    vf.build_harness(["vh-tree"])
+    cmd = list(r["harness_cmd"])
+    tr = os.path.join(c.scratch, "replay-trace.ndjson")
+    cmd[cmd.index("-out") + 1] = tr
+    vf.run_harness(cmd[0], cmd[1:], env={"VERIF_SEED": r.get("seed", 1)})
+    module = "TraceTree" if cmd[1] == "trace-tree" else "TraceProof"
+    bad = None
+    if "event" in r:            # a logged known-pattern event reported as violation: look for it again
+        with open(tr) as f:
+            for i, l in enumerate(f, 1):
+                if i == r.get("line") and json.loads(l) == r["event"]:
+                    bad = "trace line %d reproduces: %s" % (i, l.strip()[:300])
+    else:
+        res = vf.run_tlc(SPEC, module, module + ".cfg", c.scratch, workers=1, env={"TRACE_FILE": tr}, timeout=3000)
+        if not res.ok:
+            bad = "TLC %s violated again (err=%s)" % (res.violated, res.final_state.get("err"))
+    c.cleanup()
+    if bad:
+        print("VIOLATION property=%s replay=%s" % (c.pid, path))
+        print("  reproduced: " + bad)
+        return 1
+    print("NOT-REPRODUCED property=%s replay=%s" % (c.pid, path))
+    return 0
+
+
 ENGINE_KIND = ("TLA+ specs TreeOps / VersionedTree / ProofOps / ProofModel (TLC exhaustive transition cover + simulation) replayed "
                "into store/iavl and store/rootmulti; recorded traces validated by TraceTree / TraceProof")
 PROPERTIES = {
-    "C03": {"run": c03, "level": "model_checking", "engine": "tree", "design_ref": "DESIGN.md section 6 C03",
+    "C03": {"run": c03, "replay": _replay, "level": "model_checking", "engine": "tree", "design_ref": "DESIGN.md section 6 C03",
             "technique": "TLA+ model of the IAVL algorithms (TreeOps.tla, VersionedTree.tla) checked by TLC against the ordered-map model; "
                          "transition-cover and simulated behaviours replayed into the real iavl.MutableTree with node-by-node comparison; "
                          "recorded traces validated by TLC (TraceTree.tla)",
@@ -267,7 +298,7 @@ PROPERTIES = {
                     "and random depth-60 histories are executed on the real tree and compared observer by observer and node by node; random "
                     "traces over 64-512 byte-string keys are accepted by the specification. Bounded exhaustive + sampled, not a proof.",
             "note": "Trusted: TLC, the Go replay glue (key mapping, node-database decoder, RenderShape reader), tm-db memdb."},
-    "C05": {"run": c05, "level": "model_checking", "engine": "tree", "design_ref": "DESIGN.md section 6 C05",
+    "C05": {"run": c05, "replay": _replay, "level": "model_checking", "engine": "tree", "design_ref": "DESIGN.md section 6 C05",
             "technique": "TLA+ model of proof construction and of the verifier with ideal hashing (ProofOps.tla, ProofModel.tla) checked by TLC; "
                          "every enumerated (tree, query, mutation) case executed through rootmulti Query(prove=true) and DefaultProofRuntime; "
                          "recorded traces over arbitrary byte-string keys validated by TLC (TraceProof.tla)",
